@@ -96,6 +96,15 @@ func writeBaselineFile(pc *PropertyCheck) int {
 	}
 	sort.Strings(names)
 	base.Claimed[pc.ID] = names
+	if base.Unclaimed == nil {
+		base.Unclaimed = map[string][]string{}
+	}
+	var un []string
+	for n := range bad {
+		un = append(un, n)
+	}
+	sort.Strings(un)
+	base.Unclaimed[pc.ID] = un
 	b, _ := json.MarshalIndent(base, "", " ")
 	if err := os.WriteFile(path, b, 0o644); err != nil {
 		fmt.Fprintln(os.Stderr, err)
@@ -127,6 +136,12 @@ func init() {
 		Technique: "contract-based deductive verification: byte-level key lemmas over spec functions extracted mechanically from the real key builders (SMT strings), lookup/feed/expiry contracts over the ghost price table; VCs from go/ssa discharged by z3/cvc5"})
 	register(&PropSpec{ID: "C08", Level: "proof", Contracts: true, Extra: func(e *Engine, pc *PropertyCheck) { e.writerClosure(pc, "C08", "leveragelp") },
 		Technique: "contract-based deductive verification: ghost aggregates (per-pool sum of position shares, number of stored positions) with gap-preservation contracts on every function that writes the leveragelp store and on all their callers up to the entry points (closure checked on the SSA call graph); VCs from go/ssa discharged by z3/cvc5"})
+	register(&PropSpec{ID: "C02", Level: "proof", Contracts: true, Extra: func(e *Engine, pc *PropertyCheck) {
+		e.writerClosure(pc, "C02", "amm", "amm:types.KeyPrefix/types.PoolKey")
+	},
+		Technique: "contract-based deductive verification: gap contracts (pool.TotalShares - share-token supply; supply - commitment custody balance) on the real join/exit/create functions of amm and the commit/uncommit functions of commitment, type-level share bookkeeping contracts, closure scan over every writer of the amm pool table; VCs from go/ssa discharged by z3/cvc5"})
+	register(&PropSpec{ID: "C04", Level: "proof", Contracts: true, Extra: c04Extra,
+		Technique: "contract-based deductive verification: bank-level settlement postconditions on the real swap functions (per hop and per route: sender debited exactly, recipient credited at least, nobody else's balance moves), accept-only-enqueues frames on the message handlers, structural obligations on the end-of-block batch (requests applied on fresh cache contexts, written only after success); VCs from go/ssa discharged by z3/cvc5"})
 	register(&PropSpec{ID: "C10", Level: "proof", Contracts: true,
 		Technique: "contract-based deductive verification: gate postconditions on the real liquidation / stop-loss / take-profit helpers of leveragelp and perpetual (a force close runs only behind the stated comparison on the values the module computes at that moment; a position off its trigger is left alone), opens and consolidating re-opens store a health strictly above the safety factor read at that moment, owner-keyed lookups on user closes, `callers` clauses pinning every route to the force-close and repay functions; VCs from go/ssa discharged by z3/cvc5"})
 	register(&PropSpec{ID: "C14", Level: "proof", Contracts: true,
